@@ -10,6 +10,36 @@ from .siblings import Roles
 
 
 class Facts(Roles):
+    def conds(self, stmt) -> List[str]:
+        """canonical path condition of a statement: enclosing tests and earlier early-exit guards, negations pushed in,
+        comparisons oriented (independent of if/else order and of the guard-clause vs nested form)"""
+        from .cfg import path_guards
+        from .sym import cond_literals
+        if not hasattr(self, "_pg"):
+            self._pg = path_guards(self.f.node)
+        out = []
+        for t, pol in self._pg.get(id(stmt), []):
+            holder = self._holder(t)
+            out += cond_literals(t, pol, self.snaps.get(id(holder)) if holder is not None else None)
+        return sorted(set(out))
+
+    def _holder(self, test):
+        for st in self.stmts:
+            if getattr(st, "test", None) is test:
+                # a loop test is evaluated in the environment of the loop body
+                if isinstance(st, ast.While) and st.body:
+                    return st.body[0]
+                return st
+        return None
+
+    def cases(self) -> List[tuple]:
+        """(path condition, normal form) of every `return`, as a sorted list"""
+        out = []
+        for s in self.stmts:
+            if isinstance(s, ast.Return):
+                out.append((tuple(self.conds(s)), str(self.at(s, s.value)) if s.value is not None else "None"))
+        return sorted(out)
+
     def returns(self) -> List[str]:
         return [str(self.at(s, s.value)) for s in self.stmts if isinstance(s, ast.Return) and s.value is not None]
 
